@@ -30,10 +30,48 @@ def new_report(tier):
        "which marks are chosen as the start/end of a token.")
 
 
+_DERIVED = {}
+
+
+def derived_consumers(F):
+    """Input methods beyond the reviewed list that consume: provided methods of the trait whose body reaches a consuming method.  Those
+    that answer a usize are bulk operations (the answer is the number of characters taken: the Input contract, and for StrInput overrides
+    rules/bulkops.py); others are reported as consumers of an unknown amount."""
+    key = id(F)
+    if key in _DERIVED:
+        return _DERIVED[key]
+    names = set(CONSUMERS)
+    changed = True
+    while changed:
+        changed = False
+        for k, f in F.fns.items():
+            if not k.startswith(INPUT + "::") or "::{closure" in k:
+                continue
+            nm = k[len(INPUT) + 2:]
+            if nm in names or "::" in nm:
+                continue
+            if any(fr and fr.get("trait") == INPUT and fr["name"] in names for bb, t, ck, fr in f.calls()):
+                names.add(nm)
+                changed = True
+    extra = {}
+    for nm in names - set(CONSUMERS):
+        f = F.fns[INPUT + "::" + nm]
+        extra[nm] = "bulk" if f.locals[0]["ty"] == "usize" else "unknown"
+    _DERIVED.clear()
+    _DERIVED[key] = extra
+    return extra
+
+
+_F_FOR_CONSUMERS = [None]
+
+
 def consuming_calls(f):
     out = []
+    if _F_FOR_CONSUMERS[0] is None:
+        _F_FOR_CONSUMERS[0] = facts.load()
+    extra = derived_consumers(_F_FOR_CONSUMERS[0])
     for bb, t, ck, fr in f.calls():
-        if fr and fr.get("trait") == INPUT and fr["name"] in CONSUMERS:
+        if fr and fr.get("trait") == INPUT and (fr["name"] in CONSUMERS or fr["name"] in extra):
             out.append((bb, t, fr["name"]))
     return out
 
@@ -80,7 +118,7 @@ def consumed_term(f, bb, t, name):
         return term_of(cfg.expr_operand(f, t["args"][1], 8))
     if name == "skip_ws_to_eol":
         return ("res0", bb, name)
-    if name in BULK:
+    if name in BULK or (_F_FOR_CONSUMERS[0] is not None and derived_consumers(_F_FOR_CONSUMERS[0]).get(name) == "bulk"):
         return ("res", bb, name)
     if name == "raw_read_ch":
         return ("k", 1)
@@ -238,6 +276,8 @@ def _t(tm):
 def run(tier):
     rep = new_report(tier)
     F = facts.load()
+    _F_FOR_CONSUMERS[0] = F
+    rep.extra["derived_consuming_input_methods"] = derived_consumers(F)
     # (a) consumers == index writers
     consumers, writers = set(), {"index": set(), "col": set(), "line": set()}
     for k, f in F.fns.items():
@@ -414,6 +454,9 @@ def run(tier):
                 rep.check(allc, "position-from-cursor", "%s calls Marker::new" % short(k), "Marker::new is given a computed position (only initial and placeholder constants are built this way)",
                           site=site(f, t["sp"]))
     rep.floor("Marker constructions", nbuild, 1)
+    # (i) what the bulk operations of the string back-end report is a number of characters (it is added to mark.index / mark.col)
+    from . import bulkops
+    rep.floor("bulk operations whose returned count is classified", bulkops.count_unit(rep, F), 2)
     return rep
 
 
